@@ -50,6 +50,8 @@ def tt_scalar(E, s):
     else:
         if s['skind'] == 'int':
             a = s['ival']
+        elif s['skind'] == 'pyfloat':
+            a = float(s['fval'])          # a concrete python float (a double that float32 cannot represent)
         else:
             a = E.scalar('a', s['skind'], s['dtype'])
         if s.get('nonzero'):
@@ -171,5 +173,6 @@ def tt_factories(E, s):
     else:
         raise ValueError(kind)
     E.eq('value', dense(E, z.cores), ref)
+    E.true('cores_distinct_objects', len({id(c) for c in z.cores}) == len(z.cores))
     E.true('ranks', list(z.R) == [1] * (len(N) + 1))
     E.true('dtype', all(E.dtname(c) == s['dtype'] for c in z.cores))
